@@ -493,6 +493,16 @@ func (h *hand) do(op GameOp) (error, bool) {
 		h.o.Line(opCmd("game-do", op), "o=9")
 		return nil, true
 	}
+	// a bystander: once the hole cards are out, every third hand sees another game of the same kind created and
+	// started in the same process; games share nothing, so this hand must not notice (C14: the deck and the
+	// cards dealt never change)
+	if !h.flags["bystander"] && gs.Status.Round == "preflop" && (len(h.cfg.Bank)+len(h.ops))%3 == 0 {
+		h.flags["bystander"] = true
+		func() {
+			defer func() { recover() }()
+			pf.NewPokerFace().NewGame(h.cfg.options()).Start()
+		}()
+	}
 	var ob Obs
 	ob.K("o", errGameCode(err))
 	stateObs(&ob, gs)
